@@ -137,7 +137,7 @@ theorem PI.refresh (h : PI none fl T C s) :
   · intro hfr
     exact { h with
       cacheEq := rfl
-      bufCache := fun i hb => h.cacheReg i (h.bufCache i hb)
+      bufCache := fun i hi _ => hi
       cacheReg := fun i hi => hi
       fresh := fun _ i hi => hi
       ord := fun hp => by
@@ -259,6 +259,26 @@ theorem foldl_inv {α β} (P : β → Prop) (f : β → α → β) (l : List α)
   | nil => exact h0
   | cons x xs ih => exact ih _ (hs _ _ h0)
 
+/-! ### failure counters (site 8 inside) -/
+
+/-- what the proofs assume of the injection runner: it preserves the invariant (for every cut-off, every set
+    of unread contexts, every cache) — true of any sequence of frontend operations (`PI.runInj`) -/
+def InjOK (inj : BSt → Nat → BSt) : Prop :=
+  ∀ fl T C s site, PI none fl T C s → PI none fl T C (inj s site)
+
+theorem InjOK.pio {inj : BSt → Nat → BSt} (hi : InjOK inj) {s : BSt} (h : PIo fl s) (site : Nat) : PIo fl (inj s site) :=
+  (hi _ _ _ _ site h).toPIo
+
+theorem PIo.checkFailures {inj : BSt → Nat → BSt} (hi : InjOK inj) (h : PIo fl s) : PIo fl (checkFailures inj s) := by
+  unfold Backend.checkFailures
+  apply foldl_inv (fun x : BSt => PIo fl x) _ _ _ h
+  intro b i hb
+  simp only
+  split
+  · apply hi.pio
+    exact (hb.same (Same.setTh _ i _ ⟨rfl, rfl, rfl, rfl, rfl, rfl⟩)).frame rfl
+  · exact hb
+
 theorem findFirst_spec (s : BSt) (l : List Nat) :
     Same s (cleanupContexts.go.findFirst s l).1 ∧
     ∀ i, (cleanupContexts.go.findFirst s l).2 = some i → ((cleanupContexts.go.findFirst s l).1.th i).buf = [] := by
@@ -282,15 +302,14 @@ theorem findFirst_spec (s : BSt) (l : List Nat) :
         exact ⟨(same_ctxEmpty s x).trans i1, i2⟩
 
 /-- an invalidated, drained context leaves the registry and the cache -/
-theorem PIo.remove (h : PIo fl s) (i : Nat) (hb : (s.th i).buf = []) (n : Nat) :
+theorem PIo.remove (h : PIo fl s) (i : Nat) (n : Nat) :
     PIo fl { s with registry := s.registry.filter (· ≠ i), cache := s.cache.filter (· ≠ i), invalidCnt := n } := by
   unfold PIo at *
   exact { h with
     cacheEq := rfl
-    bufCache := fun j hj => by
-      refine List.mem_filter.mpr ⟨h.bufCache j hj, ?_⟩
-      simp only [ne_eq, decide_not, Bool.not_eq_eq_eq_not, Bool.not_true, decide_eq_false_iff_not]
-      intro hji; rw [hji] at hj; exact hj hb
+    bufCache := fun j hjr hj => by
+      obtain ⟨h1, h2⟩ := List.mem_filter.mp hjr
+      exact List.mem_filter.mpr ⟨h.bufCache j h1 hj, h2⟩
     cacheReg := fun j hj => by
       obtain ⟨h1, h2⟩ := List.mem_filter.mp hj
       exact List.mem_filter.mpr ⟨h.cacheReg j h1, h2⟩
@@ -304,27 +323,35 @@ theorem PIo.remove (h : PIo fl s) (i : Nat) (hb : (s.th i).buf = []) (n : Nat) :
               popFloor := o.popFloor, bufFloor := o.bufFloor
               late := fun j hj => o.late j (List.mem_filter.mp hj).1 } }
 
-theorem PIo.cleanupGo (fuel : Nat) (s : BSt) (h : PIo fl s) : PIo fl (cleanupContexts.go fuel s) := by
+theorem PIo.cleanupGo {inj : BSt → Nat → BSt} (hi : InjOK inj) (fuel : Nat) (s : BSt) (h : PIo fl s) :
+    PIo fl (cleanupContexts.go inj fuel s) := by
   induction fuel generalizing s with
   | zero => exact h
   | succ n ih =>
     unfold cleanupContexts.go
-    obtain ⟨f1, f2⟩ := findFirst_spec s s.cache
+    obtain ⟨f1, _⟩ := findFirst_spec s s.cache
     split
     · rename_i s1 heq
       rw [heq] at f1; exact h.same f1
     · rename_i s1 i heq
-      rw [heq] at f1 f2
+      rw [heq] at f1
       apply ih
       have h1 : PIo fl s1 := h.same f1
-      have h2 := h1.remove i (f2 i rfl) (counterMod s1.cfg (s1.invalidCnt + 2 ^ s1.cfg.invalidBits - 1))
+      -- the failure counters are reported once more (site 8 inside) before the context goes away
+      have h1' : PIo fl (if s1.cfg.cleanupReportsCounter = true then Backend.checkFailures inj s1 else s1) := by
+        split
+        · exact h1.checkFailures hi
+        · exact h1
+      have h2 := h1'.remove i (counterMod (if s1.cfg.cleanupReportsCounter = true then Backend.checkFailures inj s1 else s1).cfg
+        ((if s1.cfg.cleanupReportsCounter = true then Backend.checkFailures inj s1 else s1).invalidCnt +
+          2 ^ (if s1.cfg.cleanupReportsCounter = true then Backend.checkFailures inj s1 else s1).cfg.invalidBits - 1))
       exact h2.same (Same.setTh _ i _ ⟨rfl, rfl, rfl, rfl, rfl, rfl⟩)
 
-theorem PIo.cleanupContexts (h : PIo fl s) : PIo fl (cleanupContexts s) := by
+theorem PIo.cleanupContexts {inj : BSt → Nat → BSt} (hi : InjOK inj) (h : PIo fl s) : PIo fl (cleanupContexts inj s) := by
   unfold Backend.cleanupContexts
   split
   · exact h
-  · exact PIo.cleanupGo _ _ h
+  · exact PIo.cleanupGo hi _ _ h
 
 theorem PIo.frame {s s' : BSt} (h : PIo fl s) (hc : core s' = core s) : PIo fl s' := h.same (Same.ofCore hc)
 
@@ -345,25 +372,5 @@ theorem PIo.cleanupLoggers (h : PIo fl s) : PIo fl (cleanupLoggers s) := by
       split
       · exact hb.frame rfl
       · exact hb
-
-/-! ### failure counters (site 8 inside) -/
-
-/-- what the proofs assume of the injection runner: it preserves the invariant (for every cut-off, every set
-    of unread contexts, every cache) — true of any sequence of frontend operations (`PI.runInj`) -/
-def InjOK (inj : BSt → Nat → BSt) : Prop :=
-  ∀ fl T C s site, PI none fl T C s → PI none fl T C (inj s site)
-
-theorem InjOK.pio {inj : BSt → Nat → BSt} (hi : InjOK inj) {s : BSt} (h : PIo fl s) (site : Nat) : PIo fl (inj s site) :=
-  (hi _ _ _ _ site h).toPIo
-
-theorem PIo.checkFailures {inj : BSt → Nat → BSt} (hi : InjOK inj) (h : PIo fl s) : PIo fl (checkFailures inj s) := by
-  unfold Backend.checkFailures
-  apply foldl_inv (fun x : BSt => PIo fl x) _ _ _ h
-  intro b i hb
-  simp only
-  split
-  · apply hi.pio
-    exact (hb.same (Same.setTh _ i _ ⟨rfl, rfl, rfl, rfl, rfl, rfl⟩)).frame rfl
-  · exact hb
 
 end Backend.PB
